@@ -14,6 +14,8 @@ Use from a driver:
                                      checker=c20_trace.CHECKER)
 """
 
+import json
+
 HEADER = ('From Coq Require Import List ZArith String.\n'
           'From VNv Require Import NvTrace.\n'
           'Import ListNotations.\n'
@@ -117,6 +119,16 @@ def _regs_ok(parsed, want):
 
 
 def monitor(case):
+    """monitor of one observed run (see _monitor); a violation on a kernel that
+    was written in a non-default layout names the layout"""
+    v = _monitor(case)
+    lay = case['kernel'].get('layout')
+    if v is not None and lay is not None:
+        return (v[0], v[1] + ' [layout %s]' % json.dumps(lay, sort_keys=True))
+    return v
+
+
+def _monitor(case):
     """Sound monitor of the property on one observed run.  Returns None or
     ('violation', text) when the reader panicked on a valid file or any field
     of the parsed trace (opcode, addresses and uncompressed address lists
